@@ -840,8 +840,13 @@ class _CoopLock:
     def acquire(self, blocking=True, timeout=-1):
         sch = _CUR[0]
         k = getattr(sch.local, "k", None) if sch is not None else None
-        if not blocking or timeout != -1:
-            return self._real.acquire(blocking, timeout)
+        if not blocking:
+            return self._real.acquire(False)
+        if timeout != -1:
+            # a timed acquire never really waits here: under a forced schedule (and in a sequential call, where
+            # nobody else runs) a lock that is busy now stays busy until this thread gives way, so the attempt
+            # "times out" at once - the situation of a holder that is pre-empted for longer than the timeout
+            return self._real.acquire(False)
         if k is None:                      # an ordinary sequential call: must not wait (nobody else runs)
             if self._real.acquire(True, SEQ_LOCK_TIMEOUT):
                 return True
@@ -1232,14 +1237,35 @@ def _err(e):
 
 
 _LAST = {}
+_TIER = ["quick"]
+_SPENT = [0.0]            # wall-clock seconds spent driving the real code in this process
+IMPL_BUDGET = {"quick": 180.0, "thorough": 1500.0}
+CASE_BUDGET = 8.0         # a scenario slower than this counts as a hang (clean tree: 1-40 ms, a long burst 0.5 s)
 
 
 def _run(case):
-    """-> (replies, details); details feed the oracle"""
+    """-> (replies, details); details feed the oracle.  Bounded: after three deadlocks / hangs / over-long
+    scenarios, or when the budget of the tier is used up, the real code is not driven any more (the
+    replies say so; the oracle then claims nothing)."""
+    import time
     lines = case["lines"]
-    replies, details = [], []
     if _DEAD[0] >= 3:
         return ["err deadlock-seen-before"] * len(lines), []
+    if _SPENT[0] > IMPL_BUDGET.get(_TIER[0], 180.0):
+        return ["err time-budget-used-up"] * len(lines), []
+    t0 = time.time()
+    try:
+        return _run_lines(case)
+    finally:
+        dt = time.time() - t0
+        _SPENT[0] += dt
+        if dt > CASE_BUDGET and not any(l.startswith("burst") for l in lines):
+            _DEAD[0] += 1
+
+
+def _run_lines(case):
+    lines = case["lines"]
+    replies, details = [], []
     w = _Real()
     gen_code = None
     try:
@@ -1674,6 +1700,7 @@ def corpus():
 
 
 def gen_cases(rng, tier):
+    _TIER[0] = tier
     L, A, R = _prog_info()
     quick = tier == "quick"
     # sequential scenarios
